@@ -57,6 +57,7 @@ type Plan struct {
 	Extra []int  `json:"extra,omitempty"`
 	Pan   int    `json:"pan,omitempty"`
 	Nest  int    `json:"nest,omitempty"`
+	Adv   int64  `json:"adv,omitempty"` // the clock advances by this much while the loader runs
 }
 
 // Op is one concrete operation of a case.
@@ -175,7 +176,7 @@ func (r *Runner) exec(op *Op) (o obs) {
 	}
 	for i := range op.Plans {
 		p := op.Plans[i]
-		e.plans[i] = loadPlan{Out: p.Out, Shape: p.Shape, Mask: p.Mask, Extra: p.Extra, PanicOf: p.Pan, Nested: p.Nest}
+		e.plans[i] = loadPlan{Out: p.Out, Shape: p.Shape, Mask: p.Mask, Extra: p.Extra, PanicOf: p.Pan, Nested: p.Nest, Adv: p.Adv}
 	}
 	defer func() {
 		if p := recover(); p != nil {
